@@ -137,9 +137,15 @@ STR_CALLS = {
     "compress_strict": lambda c, x, s, p, rn: c.compress_strict(x),
     "expand_strict": lambda c, x, s, p, rn: c.expand_strict(x),
 }
+def _pfx(a, b):
+    """Every other pair is asked with the prefix as the library's own str subclass (`Reference(...).prefix` is a
+    `curies.api.Prefix`): the answer must not depend on it."""
+    return _api.Prefix(a) if (len(a) + len(b)) % 2 else a
+
+
 PAIR_CALLS = {
-    "expand_pair": lambda c, a, b, s, p: c.expand_pair(a, b, strict=s, passthrough=p),
-    "expand_reference": lambda c, a, b, s, p: c.expand_reference(ReferenceTuple(a, b), strict=s, passthrough=p),
+    "expand_pair": lambda c, a, b, s, p: c.expand_pair(_pfx(a, b), b, strict=s, passthrough=p),
+    "expand_reference": lambda c, a, b, s, p: c.expand_reference(ReferenceTuple(_pfx(a, b), b), strict=s, passthrough=p),
     "expand_pair_all": lambda c, a, b, s, p: c.expand_pair_all(a, b, strict=s),
     "format_curie": lambda c, a, b, s, p: c.format_curie(a, b),
 }
